@@ -56,6 +56,7 @@ func init() {
 		Rules: []ruleDef{
 			{"C15.name-families", ruleC15NameFamilies, ""},
 			{"C15.seal-sites", ruleSealSites, ""},
+			{"C15.forget-unlink-atomic", ruleForgetUnlinkAtomic, ""},
 			{"C15.curseg-live", ruleC15CurSegLive, ""},
 			{"C15.remove-order", ruleC15RemoveOrder, ""},
 			{"C15.thresholds", ruleC15Thresholds, ""},
@@ -131,6 +132,7 @@ func init() {
 		Rules: []ruleDef{
 			{"C14.no-alias-out", ruleC14NoAliasOut, ""},
 			{"C14.no-retain-in", ruleC14NoRetainIn, ""},
+			{"C14.returned-owned", ruleC14ReturnedOwned, ""},
 			{"C14.copy-inside-lock", ruleC14CopyInsideLock, ""},
 			{"C14.fresh-results", ruleC14Fresh, ""},
 		},
@@ -169,6 +171,7 @@ func init() {
 			{"C03.compact-complete", ruleC03CompactComplete, ""},
 			{"C03.copy-before-repoint", ruleC05Liveness, ""},
 			{"C03.older-first", ruleC03OlderFirst, ""},
+			{"C03.forget-unlink-atomic", ruleForgetUnlinkAtomic, ""},
 			{"C03.pick-seal-atomic", ruleC05PickSealAtomic, ""},
 			{"C03.sequence-monotonic", ruleC03SequenceMonotonic, ""},
 			{"C03.write-ahead", ruleC03WriteAhead, ""},
@@ -188,6 +191,7 @@ func init() {
 			{"C11.chain-drain", ruleC11Drain, ""},
 			{"C11.split-forward", ruleC01Split, ""},
 			{"C11.copied", ruleC14NoAliasOut, ""},
+			{"C11.fs-readers-pure", ruleFSReadersPure, ""},
 			{"C11.no-retained-locations", ruleNoRetainedLocations, "primary"},
 			{"C11.kernel", ruleKernelShapes("(*pogreb.bucketIterator).next", "(*pogreb.index).newBucketIterator", "(*pogreb.datalog).readKeyValue", "(*pogreb.index).bucketIndex"), ""},
 		},
@@ -269,6 +273,7 @@ func init() {
 	register("C16", &propDef{
 		Rules: []ruleDef{
 			{"C16.narrowing", ruleC16Narrowing, ""},
+			{"C16.mapping", ruleC17, ""},
 			{"C16.const-relations", ruleC16Consts, ""},
 			{"C16.reject-before-effect", ruleC16Reject, ""},
 			{"C16.match-equal", ruleC01MatchEqual, ""},
